@@ -49,7 +49,12 @@ namespace Oomd {
 StatsClient::StatsClient(const std::string& stats_socket_path)
     : stats_socket_path_(stats_socket_path) {
   serv_addr_.sun_family = AF_UNIX;
-  ::strcpy(serv_addr_.sun_path, stats_socket_path_.c_str());
+  if (stats_socket_path_.size() < sizeof(serv_addr_.sun_path)) {
+    ::strcpy(serv_addr_.sun_path, stats_socket_path_.c_str());
+  } else {
+    // does not fit sockaddr_un: keep the address empty so that connecting fails
+    serv_addr_.sun_path[0] = '\0';
+  }
 }
 
 std::optional<std::unordered_map<std::string, int>> StatsClient::getStats() {
